@@ -3,8 +3,9 @@
    configuration (<<"CASE", json>>) for replay on the real code. *)
 EXTENDS Signer, Json
 
-T(id, vmax, pol, cls, code, sh) == [id |-> id, vmax |-> vmax, pol |-> pol, cls |-> cls, code |-> code, sh |-> sh]
-P(cls, code, sh) == T("plain", "none", "none", cls, code, sh)
+TH(id, vmax, pol, hint, cls, code, sh) == [id |-> id, vmax |-> vmax, pol |-> pol, hint |-> hint, cls |-> cls, code |-> code, sh |-> sh]
+T(id, vmax, pol, cls, code, sh) == TH(id, vmax, pol, "own", cls, code, sh)
+P(cls, code, sh) == TH("plain", "none", "none", "none", cls, code, sh)
 
 \* C17, quick: the five outcome classes, "ok" with 1..3 certificates and mixed comment shapes; the concrete status
 \* code of an "rpc" endpoint is drawn by the harness (code class "any" = every gRPC code 1..16)
@@ -23,6 +24,9 @@ LongTpls(Ls) == UNION {{P("ok", "", <<l>>), P("ok", "", <<l, "word">>), P("ok", 
                         P("ok", "", <<"word", l, "none">>)} : l \in Ls}
 TplC17lq == LongTpls({"L65535", "L65536", "L65537", "L131072"}) \cup {P("ok", "", <<"word">>), P("rpc", "any", <<>>)}
 TplC17lt == LongTpls({"L65534", "L65535", "L65536", "L65537", "L65538", "L131072", "L1048576"}) \cup {P("ok", "", <<"word">>), P("rpc", "any", <<>>)}
+\* C17, both tiers: request contexts that end before or while the endpoints are tried
+TplC17x == {P("ok", "", <<"word">>), P("ok", "", <<"none", "spaces">>), P("rpc", "any", <<>>), P("deadline", "", <<>>)}
+CutCtxs == {"cancelled", "expired", "expiredwarm", "cancelmid"}
 NoBundle == {[cas |-> {}, lay |-> "none"]}
 
 \* C18: server identity x protocol range x client-certificate policy
@@ -37,6 +41,11 @@ TplC18h == {T("ca1", "tls13", "request", "ok", "", <<"word">>), T("ca2", "tls13"
 \* C18: impostors in front of the genuine server, several tries per endpoint, bounded (ample) request budget
 TplC18r == {T("ca1", "tls13", "request", "ok", "", <<"word">>), T("foreign", "tls13", "ignore", "ok", "", <<"word">>),
             T("ca1", "tls11", "request", "ok", "", <<"word">>)}
+\* C18, both tiers: every client-certificate policy of a genuine server x every acceptable-CA hint
+AuthPols == {"ignore", "request", "requireany", "verifyifgiven", "require"}
+Hints == {"own", "empty", "other"}
+TplC18p == {TH("ca1", v, p, h, "ok", "", <<"word">>) : v \in {"tls13", "tls12"}, p \in AuthPols, h \in Hints}
+           \cup {T("foreign", "tls13", "request", "ok", "", <<"word">>)}
 Ca1Only == {[cas |-> {"ca1"}, lay |-> "one"]}
 Ample == {"ample"}
 One == {1}
